@@ -607,7 +607,12 @@ func createMainRewriteForFilters(pathModifier *dataplane.HTTPPathModifier, path 
 	var mainRewrite string
 	switch pathModifier.Type {
 	case dataplane.ReplaceFullPath:
-		mainRewrite = fmt.Sprintf("^ %s", pathModifier.Replacement)
+		// an empty replacement would leave the rewrite directive without its replacement argument
+		replacement := pathModifier.Replacement
+		if replacement == "" {
+			replacement = "/"
+		}
+		mainRewrite = fmt.Sprintf("^ %s", replacement)
 	case dataplane.ReplacePrefixMatch:
 		filterPrefix := pathModifier.Replacement
 		if filterPrefix == "" {
